@@ -306,15 +306,27 @@ func replayMain(in, out string, na, nk int, seed int64, limit int) {
 			prefixes[opsKey(b, n, cl)] = true
 		}
 	}
-	var todo [][][]int
+	type item struct {
+		key string
+		b   [][]int
+	}
+	var items []item
 	for _, b := range behs {
-		if !prefixes[opsKey(b, len(b), cl)] {
-			todo = append(todo, b)
+		if k := opsKey(b, len(b), cl); !prefixes[k] {
+			items = append(items, item{k, b})
 		}
 	}
-	sort.SliceStable(todo, func(i, j int) bool { return opsKey(todo[i], len(todo[i]), cl) < opsKey(todo[j], len(todo[j]), cl) })
-	if limit > 0 && len(todo) > limit {
-		todo = todo[:limit]
+	sort.SliceStable(items, func(i, j int) bool { return items[i].key < items[j].key })
+	todo := make([][][]int, len(items))
+	for i, it := range items {
+		todo[i] = it.b
+	}
+	if limit > 0 && len(todo) > limit { // evenly spread
+		sel := make([][][]int, 0, limit)
+		for i := 0; i < limit; i++ {
+			sel = append(sel, todo[i*len(todo)/limit])
+		}
+		todo = sel
 	}
 	reg := newRegistry()
 	rp := &replayer{na: na, nk: nk, reg: reg}
